@@ -164,41 +164,44 @@ func c13Run(c c13Case) (obs c13Obs, before, after []string, stmtSent bool) {
 		h = db.Session(&gorm.Session{SkipHooks: true})
 	}
 	var res *gorm.DB
-	switch c.Op {
-	case "create":
-		switch c.Shape {
-		case "ptrslice":
-			items := make([]*HItem, c.N)
-			for i := range items {
-				it := mk(i)
-				items[i] = &it
+	res = c13Guard(func() *gorm.DB {
+		switch c.Op {
+		case "create":
+			switch c.Shape {
+			case "ptrslice":
+				items := make([]*HItem, c.N)
+				for i := range items {
+					it := mk(i)
+					items[i] = &it
+				}
+				res = h.Create(&items)
+			case "valslice":
+				items := make([]HItem, c.N)
+				for i := range items {
+					items[i] = mk(i)
+				}
+				res = h.Create(&items)
+			default:
+				it := mk(0)
+				res = h.Create(&it)
 			}
-			res = h.Create(&items)
-		case "valslice":
-			items := make([]HItem, c.N)
-			for i := range items {
-				items[i] = mk(i)
+		case "query":
+			var items []HItem
+			res = h.Order("id").Find(&items)
+		case "update":
+			// hooks run on the Model value: one record
+			it := HItem{ID: 1, Name: "r0"}
+			if c.Skip == "updatecolumn" {
+				res = h.Model(&it).UpdateColumn("tag", "uc")
+			} else {
+				res = h.Model(&it).Updates(map[string]interface{}{"tag": "upd"})
 			}
-			res = h.Create(&items)
-		default:
-			it := mk(0)
-			res = h.Create(&it)
+		case "delete":
+			it := HItem{ID: 1, Name: "r0"}
+			res = h.Delete(&it)
 		}
-	case "query":
-		var items []HItem
-		res = h.Order("id").Find(&items)
-	case "update":
-		// hooks run on the Model value: one record
-		it := HItem{ID: 1, Name: "r0"}
-		if c.Skip == "updatecolumn" {
-			res = h.Model(&it).UpdateColumn("tag", "uc")
-		} else {
-			res = h.Model(&it).Updates(map[string]interface{}{"tag": "upd"})
-		}
-	case "delete":
-		it := HItem{ID: 1, Name: "r0"}
-		res = h.Delete(&it)
-	}
+		return res
+	})
 	if res.Error != nil {
 		obs.Err = res.Error.Error()
 	}
@@ -471,6 +474,8 @@ func init() {
 		c13xSuite(r, rng, tier)
 		// association GRAPHS with shared in-memory records, visit map (c13_graphs.go)
 		c13gSuite(r, rng, tier)
+		// what the hook BODIES do: SetColumn / Changed / re-entrant operations / faults at every position (c13_bodies.go)
+		c13bSuite(r, rng, tier)
 	})
 	replayers["C13/hooks"] = func(r *Result, input json.RawMessage) {
 		var c c13Case
